@@ -203,7 +203,7 @@ def draw_cfg(st):
         # fault-injecting twin: write/flush of the binary file may raise OSError (ENOSPC, EIO, EAGAIN, EINTR)
         "p_io_error": [0.0, 0.0, 0.0, 0.1][st.choose(4, "p_io")],
     }
-    if cfg["p_io_error"]:
+    if cfg["p_io_error"] and st.choose(3, "io-threads") != 2:
         cfg["world"] = world = "seq"
     if not cfg["custom_default"]:
         cfg["bad_kinds"] = [k for k in RICH if "custom" not in k]
@@ -273,9 +273,24 @@ def oracle_io_faults(rc):
             if x in seen and b"destination_failure" not in x:
                 raise Violation(("line_twice", {"faults": True}), "the line %r was written twice" % x[:160])
             seen.add(x)
+    # what a write call accepted in full stays in the file, in call order
+    data = rc.fbin.os_cache + rc.fbin.user_buf
+    pos = 0
+    for c in rc.fbin.calls:
+        if c[0] == "write":
+            i = data.find(c[1], pos)
+            if i < 0:
+                raise Violation(("lost", {"faults": True}),
+                                "the line %r was accepted by a write call that returned normally and is no longer "
+                                "in the file" % (c[1][:120],))
+            pos = i + len(c[1])
     n = len(rc.tap.records)
     calls = [c[0] for c in rc.ftxt.calls]
-    if calls != ["write", "flush"] * n:
+    if rc.cfg["world"] != "seq":
+        if calls.count("write") != n or calls.count("flush") != n:
+            raise Violation(("write_discipline", {"faults": True}),
+                            "the healthy file got %d messages as %s" % (n, calls[:12]))
+    elif calls != ["write", "flush"] * n:
         raise Violation(("write_discipline", {"faults": True}),
                         "the healthy file got %d messages as %s" % (n, calls[:12]))
     return ("io_faults",)
